@@ -12,20 +12,24 @@ svars == <<gvars, chain, rng>>
 
 Levels == {"alg", "sv", "val"}
 Op(ev, tgt, task, a, s, v, run, c, lvl, to) ==
-    [ev |-> ev, tgt |-> tgt, task |-> task, a |-> a, s |-> s, v |-> v, run |-> run, c |-> c, lvl |-> lvl, to |-> to]
+    [ev |-> ev, tgt |-> tgt, task |-> task, tks |-> {}, a |-> a, s |-> s, v |-> v, run |-> run, c |-> c, lvl |-> lvl, to |-> to]
 OpsOf(k) ==
     CASE k = "Update" -> { Op(k, tgt, task, a, s, v, run, c, "", 0) : tgt \in Targets, task \in Tasks, a \in AlgNames, s \in SvNames, v \in ValNames, run \in Runs, c \in Contents }
       [] k \in {"Load", "Remove"} -> { Op(k, tgt, task, a, s, v, run, 0, "", 0) : tgt \in Targets, task \in Tasks, a \in AlgNames, s \in SvNames, v \in ValNames, run \in Runs }
       [] k = "Reset" -> { Op(k, tgt, task, a, s, "", run, 0, "", 0) : tgt \in Targets, task \in Tasks, a \in AlgNames, s \in SvNames, run \in Runs }
-      [] k = "Trace" -> { Op(k, "", task, a, "", "", 0, 0, "", 0) : task \in Tasks, a \in AlgNames }
+      [] k = "Trace" -> { [Op(k, "", "", a, "", "", 0, 0, "", 0) EXCEPT !.tks = tks] : tks \in (SUBSET Tasks) \ {{}}, a \in AlgNames }
+      [] k = "Worm" -> UNION { { Op(k, tgt, task, a, s, v, run, 0, "", 0) :
+                                   run \in Given(m, "run", Runs, ANYRUN), tgt \in Given(m, "tgt", Targets, ""),
+                                   task \in Given(m, "task", Tasks, ""), a \in Given(m, "a", AlgNames, ""),
+                                   s \in Given(m, "s", SvNames, ""), v \in Given(m, "v", ValNames, "") } : m \in WormMasks }
       [] k = "Register" -> { Op(k, "", task, a, s, v, 0, 0, "", 0) : task \in Tasks, a \in AlgNames, s \in SvNames, v \in ValNames }
       [] k = "AddTarget" -> { Op(k, tgt, "", "", "", "", 0, 0, "", 0) : tgt \in Targets }
       [] k = "Bump" -> { Op(k, "", "", "", "", "", 0, 0, lvl, to) : lvl \in Levels, to \in Vers }
       [] OTHER -> { Op(k, "", "", "", "", "", 0, 0, "", 0) }
-(* weights of the kinds of operation (out of 24) *)
+(* weights of the kinds of operation (out of 27) *)
 KindTable == <<"Update", "Update", "Update", "Update", "Update", "Update", "Update",
                "Load", "Load", "Load", "Load", "Remove", "Remove", "Remove", "Reset", "Reset",
-               "Bump", "Bump", "Bump", "Trace", "Register", "AddTarget", "Next", "Reopen">>
+               "Bump", "Bump", "Bump", "Trace", "Trace", "Worm", "Worm", "Register", "AddTarget", "Next", "Reopen">>
 Kinds == { KindTable[i] : i \in DOMAIN KindTable }
 OpSeq == [k \in Kinds |-> SetToSeq(OpsOf(k))]      \* constant: evaluated once
 
@@ -41,7 +45,8 @@ Apply(o) ==
       [] o.ev = "Load"      -> Load(o.tgt, o.task, o.a, o.s, o.v, o.run)
       [] o.ev = "Remove"    -> RemoveEntry(o.run, o.tgt, o.task, o.a, o.s, o.v)
       [] o.ev = "Reset"     -> Reset(o.run, o.tgt, o.task, o.a, o.s)
-      [] o.ev = "Trace"     -> TraceReport(o.task, o.a)
+      [] o.ev = "Trace"     -> TraceReport(o.tks, o.a)
+      [] o.ev = "Worm"      -> Worm(o.run, o.tgt, o.task, o.a, o.s, o.v)
       [] o.ev = "Register"  -> Register(o.task, o.a, o.s, o.v)
       [] o.ev = "AddTarget" -> AddTarget(o.tgt)
       [] o.ev = "Bump"      -> Bump(o.lvl, o.to)
